@@ -72,6 +72,34 @@ impl Body for ScriptedBody {
                         }
                     }
                 }
+                // (no draw) a body that gathers: every write_all whose length leaves 2 modulo 4 goes out as one
+                // `write_vectored` of three slices (short counts honoured, as the contract demands)
+                WOp::WriteAll(b) if b.len() % 4 == 2 && b.len() >= 6 => {
+                    let (a, rest) = b.split_at(b.len() / 5 + 1);
+                    let (m, z) = rest.split_at(rest.len() / 2);
+                    let mut parts: Vec<&[u8]> = vec![a, m, z];
+                    while !parts.is_empty() {
+                        let ios: Vec<std::io::IoSlice<'_>> = parts.iter().map(|p| std::io::IoSlice::new(p)).collect();
+                        let mut n = match w.write_vectored(&ios) {
+                            Ok(0) => return Err(std::io::ErrorKind::WriteZero.into()),
+                            Ok(n) => n,
+                            Err(e) if e.kind() == std::io::ErrorKind::Interrupted => continue,
+                            Err(e) => return Err(e),
+                        };
+                        while n > 0 {
+                            if n >= parts[0].len() {
+                                n -= parts[0].len();
+                                parts.remove(0);
+                            } else {
+                                parts[0] = &parts[0][n..];
+                                n = 0;
+                            }
+                        }
+                        while parts.first().map(|p| p.is_empty()).unwrap_or(false) {
+                            parts.remove(0);
+                        }
+                    }
+                }
                 WOp::WriteAll(b) => w.write_all(b)?,
                 WOp::Flush => w.flush()?,
             }
